@@ -315,11 +315,11 @@ def run(run):
     rng = run.rng
     quick = run.tier == "quick"
     docs = list(exhaustive_headings(3 if quick else 4)) + list(exhaustive_lists(2 if quick else 3))
-    for _ in range(600 if quick else 8000):
+    for _ in range(1000 if quick else 8000):
         docs.append(gen_doc(rng, rng.randint(1, 12)))
     for _ in range(200 if quick else 3000):
         docs.append(gen_doc(rng, rng.randint(1, 10), with_lists=False))
-    for _ in range(700 if quick else 10000):
+    for _ in range(1000 if quick else 10000):
         docs.append(walk_doc(rng))
     texts = [render(d, rng) for d in docs]
     chunks = [texts[i:i + 200] for i in range(0, len(texts), 200)]
